@@ -1,6 +1,10 @@
 package props
 
 import (
+	goat "github.com/avos-io/goat"
+	"github.com/avos-io/goat/gen/goatorepo"
+	"goatverif/wire"
+
 	"context"
 	"fmt"
 	"sync"
@@ -56,6 +60,8 @@ func c15Sources(tier string) []struct {
 		{"C20", len(c20List("quick")), pick(93, 93)},
 		{"C05", len(c05List("quick")), pick(10, 38)},
 		{"concurrent-accessors", 64, pick(64, 64)},
+		{"proxy-attach-vs-failure", 24, pick(24, 24)},
+		{"concurrent-aborts", 48, pick(48, 48)},
 	}
 }
 
@@ -119,6 +125,10 @@ func c15Run(tier string, seed int64, idx int) *core.Result {
 		sub = c20Run(qs, seed, c.Index)
 	case "concurrent-accessors":
 		sub = c15Accessors(qs, seed, c.Index)
+	case "proxy-attach-vs-failure":
+		sub = c15ProxyAttach(qs, seed, c.Index)
+	case "concurrent-aborts":
+		sub = c15Aborts(qs, seed, c.Index)
 	}
 	res := &core.Result{Verdict: core.Held, Sample: c, Sig: fmt.Sprintf("%+v", c), NonTrivial: c.GMP > 1, Retire: sub.Retire}
 	// only race reports (collected by the parent from the detector's log) count here; the
@@ -127,7 +137,7 @@ func c15Run(tier string, seed int64, idx int) *core.Result {
 	res.SetAdd("workloads", c.Source)
 	res.SetAdd("gomaxprocs", fmt.Sprint(c.GMP))
 	for k, v := range sub.Stats {
-		if len(k) > 5 && k[:5] == "hook:" || k == "concurrent_accessor_streams" {
+		if len(k) > 5 && k[:5] == "hook:" || k == "concurrent_accessor_streams" || k == "proxy_attach_rounds" || k == "concurrent_abort_streams" {
 			res.Stat(k, v)
 		}
 	}
@@ -142,11 +152,11 @@ func init() {
 		ID:    "C15",
 		Level: "exploration",
 		Race:  true,
-		Rule:  "the quick case lists of C01-C05, C07, C09-C11, C14, C16-C20 (unary and stream workloads with separate sender/receiver goroutines, Header/Trailer concurrent with sends, cancellations, Stop and transport failures concurrent with traffic, proxy and demux with up to 8 peers, HTTP cleaner) plus a dedicated workload in which every accessor the API allows to run concurrently does so (handler goroutines SetHeader/SendHeader, SendMsg, SetTrailer, RecvMsg; caller goroutines Header, Recv, Send+CloseSend, Trailer; unary calls alongside) are re-run in a binary built with -race, GOMAXPROCS cycling over {1,2,4,16}, with the seeded yield/sleep plans at every hook point; every race-detector report with a goat frame in either stack is a violation (de-duplicated by innermost goat frames), a report without goat frames fails the run as a harness bug. evaluations = workload cases run under the detector; non-trivial = run on more than one OS thread; distinct = (workload, index, GOMAXPROCS).",
+		Rule:  "the quick case lists of C01-C05, C07, C09-C11, C14, C16-C20 (unary and stream workloads with separate sender/receiver goroutines, Header/Trailer concurrent with sends, cancellations, Stop and transport failures concurrent with traffic, proxy and demux with up to 8 peers, HTTP cleaner) plus a dedicated workload in which every accessor the API allows to run concurrently does so (handler goroutines SetHeader/SendHeader, SendMsg, SetTrailer, RecvMsg; caller goroutines Header, Recv, Send+CloseSend, Trailer; unary calls alongside), a proxy workload in which peers are attached by goroutines of their own (as an accept loop does) while other peers' connections fail, are dialled or forward traffic, and a workload in which a stream is aborted from its sending and its receiving goroutine at the same time (send of an unmarshalable message / write failure vs. undecodable response) are re-run in a binary built with -race, GOMAXPROCS cycling over {1,2,4,16}, with the seeded yield/sleep plans at every hook point; every race-detector report with a goat frame in either stack is a violation (de-duplicated by innermost goat frames), a report without goat frames fails the run as a harness bug. evaluations = workload cases run under the detector; non-trivial = run on more than one OS thread; distinct = (workload, index, GOMAXPROCS).",
 		Plan:  func(tier string, seed int64) int { return len(c15List(tier)) },
 		Run:   c15Run,
 		RequiredStats: func(string) []string {
-			return []string{"workload_cases_under_race_detector", "hook:cs.recv.window", "hook:srv.writer.beforeWrite", "hook:proxy.forward", "hook:demux.handoff", "hook:http.deliver", "hook:mux.beforeDispatch", "concurrent_accessor_streams"}
+			return []string{"workload_cases_under_race_detector", "hook:cs.recv.window", "hook:srv.writer.beforeWrite", "hook:proxy.forward", "hook:demux.handoff", "hook:http.deliver", "hook:mux.beforeDispatch", "concurrent_accessor_streams", "proxy_attach_rounds", "concurrent_abort_streams"}
 		},
 		Assumptions: []string{"the race detector only sees pairs of accesses that both executed within its history window; no report is not race freedom"},
 	})
@@ -230,6 +240,153 @@ func c15Accessors(tier string, seed int64, idx int) *core.Result {
 		res.Verdict, res.Note = core.Inconclusive, "concurrent-accessor workload did not finish: "+st
 	}
 	res.Stat("concurrent_accessor_streams", int64(n))
+	finish(tier, b, h, res)
+	return res
+}
+
+// c15ProxyAttach: peers are attached to a running proxy by goroutines of their own (an accept
+// loop), with nothing ordering the attachment against what the proxy's serve loop does meanwhile:
+// another peer's connection failing, an envelope being forwarded, a destination being dialled.
+func c15ProxyAttach(tier string, seed int64, idx int) *core.Result {
+	res := &core.Result{Verdict: core.Held}
+	h := bed.NewHooks()
+	h.Jitter = uint64(seed)*43 + uint64(idx) + 1
+	h.Install()
+	ctx, cancel := context.WithCancel(context.Background())
+	var mu sync.Mutex
+	disc := 0
+	var links []*wire.Link
+	mk := func() *wire.Link {
+		l := wire.NewLink(4, idx%2 == 0)
+		mu.Lock()
+		links = append(links, l)
+		mu.Unlock()
+		wire.NewPeer(ctx, l.A, func(_ *wire.Peer, in *wire.Rpc) {})
+		return l
+	}
+	px := goat.NewProxy(ctx, "px", func(id string) (goat.RpcReadWriter, error) {
+		if len(id) > 0 && id[0] == 'd' {
+			return mk().B, nil
+		}
+		return nil, fmt.Errorf("cannot dial %q", id)
+	}, nil, func(id string, reason error) {
+		mu.Lock()
+		disc++
+		mu.Unlock()
+	})
+	served := make(chan struct{})
+	go func() { px.Serve(); close(served) }()
+	rounds := 6
+	for r := 0; r < rounds; r++ {
+		la := mk()
+		an := fmt.Sprintf("a%d", r)
+		px.AddClient(an, la.B)
+		start := make(chan struct{})
+		var w Waiter
+		w.Add(2)
+		go func() { // the accept loop attaching the next peer
+			defer w.Done()
+			<-start
+			spin(idx + r)
+			px.AddClient(fmt.Sprintf("b%d", r), mk().B)
+		}()
+		go func() { // meanwhile, on a's connection
+			defer w.Done()
+			<-start
+			spin(2*idx + r + 1)
+			switch (idx + r) % 3 {
+			case 0:
+				la.B.FailRead()
+			case 1: // an envelope to a destination that has to be dialled
+				la.A.Write(ctx, &wire.Rpc{Id: 1, Header: &goatorepo.RequestHeader{Method: "/x/y", Source: an, Destination: fmt.Sprintf("d%d-%d", idx, r)}, Body: &goatorepo.Body{Data: []byte{1}}})
+			default: // an envelope to an unknown destination (dial fails), then a failure
+				la.A.Write(ctx, &wire.Rpc{Id: 1, Header: &goatorepo.RequestHeader{Method: "/x/y", Source: an, Destination: "nowhere"}, Body: &goatorepo.Body{Data: []byte{1}}})
+				la.B.FailRead()
+			}
+		}()
+		close(start)
+		if st, _ := settle(tier, func() bool { return w.Left() == 0 }); st != "ok" {
+			res.Verdict, res.Note = core.Inconclusive, "proxy attach workload did not finish: "+st
+			break
+		}
+		quiet(tier)
+		res.Stat("proxy_attach_rounds", 1)
+	}
+	cancel()
+	mu.Lock()
+	for _, l := range links {
+		l.Kill()
+	}
+	mu.Unlock()
+	left, final := bed.Hygiene(watchdog(tier))
+	bed.Uninstall()
+	h.Fold(res)
+	if !final || len(left) > 0 {
+		res.Retire = true
+	}
+	return res
+}
+
+// spin burns a little CPU without synchronising with anything.
+func spin(n int) {
+	x := 0
+	for i := 0; i < (n%7)*300; i++ {
+		x += i
+	}
+	_ = x
+}
+
+// c15Aborts: one stream is aborted from its sending goroutine (a message that cannot be
+// marshalled, or a failing transport write) and from its receiving goroutine (a response that
+// cannot be decoded into the caller's message) at the same time.
+func c15Aborts(tier string, seed int64, idx int) *core.Result {
+	res := &core.Result{Verdict: core.Held}
+	h := bed.NewHooks()
+	h.Jitter = uint64(seed)*47 + uint64(idx) + 1
+	h.Install()
+	b := bed.New(bed.Opts{Cap: idx % 3, Serialise: idx%2 == 0})
+	cc := b.Conns[0]
+	n := 3
+	var w Waiter
+	for s := 0; s < n; s++ {
+		tag := fmt.Sprintf("ab%d-%d", idx, s)
+		b.Impl.SetStream(tag, func(t, k string, ss grpc.ServerStream) error {
+			ss.SendMsg(&svc.BV{Value: []byte("r")})
+			<-ss.Context().Done()
+			return nil
+		})
+		st, err := svc.Open(context.Background(), cc, "bidi", tag, nil)
+		if err != nil {
+			continue
+		}
+		quiet(tier) // the response is queued on the stream
+		start := make(chan struct{})
+		w.Add(2)
+		go func() {
+			defer w.Done()
+			<-start
+			spin(idx + s)
+			if (idx/3)%2 == 0 {
+				st.SendMsg("not a protobuf message")
+			} else {
+				b.Links[0].A.FailWriteAt(b.Links[0].A.Writes(), true)
+				st.Send([]byte("x"))
+			}
+		}()
+		go func() {
+			defer w.Done()
+			<-start
+			spin(idx/2 + 2*s + 1)
+			var notProto string
+			st.RecvMsg(&notProto)
+		}()
+		close(start)
+		if r, _ := settle(tier, func() bool { return w.Left() == 0 }); r != "ok" {
+			res.Verdict, res.Note = core.Inconclusive, "concurrent abort workload did not finish: "+r
+			break
+		}
+		res.Stat("concurrent_abort_streams", 1)
+	}
 	finish(tier, b, h, res)
 	return res
 }
